@@ -1,63 +1,278 @@
 #!/usr/bin/env python3
-"""Translator (C10): the label / context strings and their length constants that the TLS key derivation code
-keeps in .c files -> coq/Gen/TlsLabels.v (byte lists).  The code-shaped models (coq/Tls/TlsModel.v) use THESE, the
-RFC transcription (coq/Tls/TlsSpec.v) has its own literals: a changed string breaks the `model = spec` theorems."""
-import os, re, sys
+"""Translator (C10): the label / context strings the TLS key derivation code passes at each DERIVATION SITE
+-> coq/Gen/TlsLabels.v (+ TlsLabels.json for the run-time tie).
+
+A site is a call (psHkdfExpandLabel, tls13DeriveSecret, tls13Sign/tls13Verify, the Memcpy of a PRF label) classified
+by what it derives (destination / enclosing function), never by the label it uses.  For every site the argument
+expressions (label, length) are RESOLVED: string literals, `#define X "..."`, `[static] [const] char *x = "..."`,
+`char x[] = "..."`, conditional expressions, locals assigned in branches; lengths: integer literals, #defines, initialised
+integer variables, sizeof(x) (array: with the terminating NUL, pointer: 8), strlen-style calls, + - *.  The table carries
+the EXACT bytes handed over: the first `length` bytes of the string, including the NUL when the length covers it.
+A harmless refactor (same bytes through a named constant) therefore generates the same table; a changed label or a
+length that includes the terminator generates a different one, the `model = spec` lemmas break and the live tie finds the
+session on which the derived value differs.  Sites that cannot be resolved statically fall back to a RUN-TIME capture
+(argv[1]: JSON {site: [hex, ..]} recorded by harness/h_tlskeys.c on a few live sessions before the Coq build).
+The code-shaped models (coq/Tls/TlsModel.v) use THESE, the RFC transcription (coq/Tls/TlsSpec.v) has its own literals."""
+import json, os, re, sys
 REPO = os.environ.get("VERIF_REPO", "/repo")
 VERIF = os.path.dirname(os.path.dirname(os.path.dirname(os.path.abspath(__file__))))
-# (file, kind, C name, occurrence index)   kind: define-string | define-int | var-string | var-int | arg-string
-WANT = [
-    ("matrixssl/tls.c", "define-string", "LABEL_MASTERSEC", 0), ("matrixssl/tls.c", "define-string", "LABEL_KEY_BLOCK", 0),
-    ("matrixssl/tls.c", "define-string", "LABEL_EXT_MASTERSEC", 0), ("matrixssl/tls.c", "define-int", "LABEL_SIZE", 0),
-    ("matrixssl/tls.c", "define-int", "LABEL_EXT_SIZE", 0),
-    ("matrixssl/hsHash.c", "define-string", "LABEL_CLIENT", 0), ("matrixssl/hsHash.c", "define-string", "LABEL_SERVER", 0),
-    ("matrixssl/hsHash.c", "define-int", "FINISHED_LABEL_SIZE", 0),
-] + [("matrixssl/tls13KeySchedule.c", "var-string", n, 0) for n in
-     ("derivedLabel", "extBinderLabel", "resBinderLabel", "cEarlyTrafficLabel", "cHsTrafficLabel", "sHsTrafficLabel", "finishedLabel",
-      "cApTrafficLabel", "sApTrafficLabel", "resLabel")] + \
-    [("matrixssl/tls13KeySchedule.c", "var-int", n, 0) for n in
-     ("derivedLabelLen", "extBinderLabelLen", "resBinderLabelLen", "earlyTrafficLabelLen", "finishedLabelLen", "trafficLabelLen", "resLabelLen")] + [
-    ("matrixssl/tls13Encode.c", "var-string", "contextStrServer", 0), ("matrixssl/tls13Encode.c", "var-string", "contextStrClient", 0),
-    ("matrixssl/tls13Decode.c", "var-string", "contextStrServer", 0), ("matrixssl/tls13Decode.c", "var-string", "contextStrClient", 0),
-]
-# string literal arguments of psHkdfExpandLabel calls ("key", 3 / "iv", 2 / "resumption", 10) and the "tls13 " prefix
-ARGS = [("matrixssl/tls13KeySchedule.c", r'"(key)",\s*(\d+),'), ("matrixssl/tls13KeySchedule.c", r'"(iv)",\s*(\d+),'),
-        ("matrixssl/tls13Resume.c", r'"(resumption)",\s*(\d+),')]
-out = ["(* GENERATED by tools/srcgen/gen_tls_labels.py from string literals of the TLS key derivation code - do not edit *)",
-       "From Coq Require Import NArith List.", "Import ListNotations."]
-def blist(s): return "[" + "; ".join(str(b) for b in s.encode()) + "]%N"
-for f, kind, name, _ in WANT:
+CAPTURE = {}
+if len(sys.argv) > 1 and os.path.exists(sys.argv[1]):
+    try: CAPTURE = json.load(open(sys.argv[1]))
+    except Exception: CAPTURE = {}
+
+SITES = ["master", "ext_master", "key_block", "client_finished", "server_finished",
+         "derived", "res_binder", "ext_binder", "c_e_traffic", "c_hs_traffic", "s_hs_traffic", "c_ap_traffic", "s_ap_traffic",
+         "res_master", "finished", "key", "iv", "resumption", "cv_server", "cv_client"]
+found = {s: [] for s in SITES}          # site -> list of (bytes | None, provenance)
+notes = []
+
+def read(f):
     txt = open(os.path.join(REPO, f), errors="replace").read()
-    tag = os.path.basename(f).split(".")[0]
-    if kind == "define-string": m = re.search(r'^\s*#\s*define\s+%s\s+"([^"]*)"' % name, txt, re.M)
-    elif kind == "define-int": m = re.search(r'^\s*#\s*define\s+%s\s+(\d+)' % name, txt, re.M)
-    elif kind == "var-string": m = re.search(r'\bchar\s*\*\s*%s\s*=\s*"([^"]*)"' % name, txt)
-    else: m = re.search(r'\b%s\s*=\s*(\d+)\s*;' % name, txt)
-    if not m:
-        out.append("(* %s not found in %s *)" % (name, f)); continue
-    if kind.endswith("string"): out.append("Definition s_%s_%s : list N := %s.   (* \"%s\" *)" % (tag, name, blist(m.group(1)), m.group(1)))
-    else: out.append("Definition n_%s_%s : nat := %d." % (tag, name, int(m.group(1))))
-for f, rx in ARGS:
-    txt = open(os.path.join(REPO, f), errors="replace").read()
-    ms = re.findall(rx, txt)
-    tag = os.path.basename(f).split(".")[0]
-    if not ms:
-        out.append("(* %s not found in %s *)" % (rx, f)); continue
-    lits = sorted(set(ms))
-    nm = re.sub(r"\W", "", rx.split('"')[1])
-    # every call site must pass the same literal and length; otherwise the list has several entries and the model's lookup fails to compile
-    out.append("Definition a_%s_%s : list (list N * nat) := [%s]." % (tag, nm, "; ".join("(%s, %d)" % (blist(s), int(n)) for s, n in lits)))
-txt = open(os.path.join(REPO, "crypto/digest/hkdf.c"), errors="replace").read()
+    txt = re.sub(r"/\*.*?\*/", lambda m: re.sub(r"[^\n]", " ", m.group(0)), txt, flags=re.S)     # comments -> blanks (keeps offsets/lines)
+    return re.sub(r"//[^\n]*", "", txt)
+
+STR = r'"((?:[^"\\]|\\.)*)"'
+def unescape(s): return bytes(s, "latin1").decode("unicode_escape").encode("latin1")
+
+class Unit:
+    def __init__(self, f):
+        self.f, self.txt = f, read(f)
+        t = self.txt
+        self.strs = {}          # name -> (bytes, kind, declared array size | None)
+        for m in re.finditer(r'^[ \t]*#[ \t]*define[ \t]+(\w+)[ \t]+((?:%s[ \t]*)+)$' % STR, t, re.M):
+            self.strs[m.group(1)] = (b"".join(unescape(x) for x in re.findall(STR, m.group(2))), "define", None)
+        for m in re.finditer(r'\bchar\s*\*\s*(?:const\s+)?(\w+)\s*=\s*((?:%s\s*)+);' % STR, t):
+            self.strs[m.group(1)] = (b"".join(unescape(x) for x in re.findall(STR, m.group(2))), "ptr", None)
+        for m in re.finditer(r'\bchar\s+(\w+)\s*\[\s*(\d*)\s*\]\s*=\s*((?:%s\s*)+);' % STR, t):
+            self.strs[m.group(1)] = (b"".join(unescape(x) for x in re.findall(STR, m.group(3))), "array", int(m.group(2)) if m.group(2) else None)
+        self.ints = {}          # name -> expression text
+        for m in re.finditer(r'^[ \t]*#[ \t]*define[ \t]+(\w+)[ \t]+([^"\n]+?)[ \t]*$', t, re.M):
+            self.ints.setdefault(m.group(1), m.group(2))
+        for m in re.finditer(r'\b(?:psSize_t|psSizeL_t|size_t|int|unsigned|uint\d+_t|int\d+_t|uint\d+|int\d+)\s+(\w+)\s*=\s*([^;{]+);', t):
+            self.ints.setdefault(m.group(1), m.group(2))
+        # function bodies: (name, parameter names, start, end)
+        self.funcs = []
+        for m in re.finditer(r'^[A-Za-z_][^;{}()#]*?\b(\w+)\s*\(([^{};]*?)\)\s*\{', t, re.M | re.S):
+            depth, i = 1, m.end()
+            while i < len(t) and depth:
+                depth += (t[i] == "{") - (t[i] == "}"); i += 1
+            params = [re.findall(r"\w+", p)[-1] for p in m.group(2).split(",") if re.findall(r"\w+", p)]
+            self.funcs.append((m.group(1), params, m.start(), i))
+    def func_at(self, pos):
+        for f in self.funcs:
+            if f[2] <= pos < f[3]: return f
+        return None
+    def calls(self, fname):
+        """(position, [argument texts]) of every call of fname (definitions / prototypes skipped)"""
+        out = []
+        for m in re.finditer(r'\b%s\s*\(' % fname, self.txt):
+            i = m.end(); depth = 1; args = [""]; instr = False
+            while i < len(self.txt) and depth:
+                c = self.txt[i]
+                if instr:
+                    args[-1] += c
+                    if c == "\\": args[-1] += self.txt[i + 1]; i += 1
+                    elif c == '"': instr = False
+                elif c == '"': instr = True; args[-1] += c
+                elif c in "([": depth += 1; args[-1] += c
+                elif c in ")]":
+                    depth -= 1
+                    if depth: args[-1] += c
+                elif c == "," and depth == 1: args.append("")
+                else: args[-1] += c
+                i += 1
+            args = [" ".join(a.split()) for a in args]
+            if any(re.match(r"^(const\s+)?\w+\s*\*?\s*\w+$", a) and not re.match(r"^\w+$", a) for a in args[:2]): continue   # a declaration
+            out.append((m.start(), args))
+        return out
+
+    # ---- expression resolution
+    def split_ternary(self, e):
+        """c ? a : b at top level -> (c, a, b) else None"""
+        depth = 0; q = None
+        for i, ch in enumerate(e):
+            if ch in "([": depth += 1
+            elif ch in ")]": depth -= 1
+            elif ch == "?" and depth == 0 and q is None: q = i
+            elif ch == ":" and depth == 0 and q is not None: return e[:q].strip(), e[q + 1:i].strip(), e[i + 1:].strip()
+        return None
+    def strip(self, e):
+        e = e.strip()
+        while True:
+            m = re.match(r"^\(\s*(?:const\s+)?(?:unsigned\s+)?(?:char|psSize_t|psSizeL_t|size_t|int|uint\d+_t|int\d+_t|uint32|int32)\s*\*?\s*\)\s*(.*)$", e)    # casts
+            if m: e = m.group(1).strip(); continue
+            if e.startswith("(") and e.endswith(")"):
+                depth = 0; ok = True
+                for i, ch in enumerate(e):
+                    depth += (ch == "(") - (ch == ")")
+                    if depth == 0 and i < len(e) - 1: ok = False; break
+                if ok: e = e[1:-1].strip(); continue
+            return e
+    def local_assignments(self, name, pos):
+        f = self.func_at(pos)
+        if not f: return []
+        body = self.txt[f[2]:f[3]]
+        return [m.group(1).strip() for m in re.finditer(r'(?<![\w.>])%s\s*=\s*([^;=][^;]*);' % re.escape(name), body)]
+    def str_candidates(self, e, pos):
+        """list of (bytes, kind, declared size) the expression may denote; None entries = unresolved"""
+        e = self.strip(e)
+        t = self.split_ternary(e)
+        if t: return self.str_candidates(t[1], pos) + self.str_candidates(t[2], pos)
+        if re.match(r'^(%s\s*)+$' % STR, e): return [(b"".join(unescape(x) for x in re.findall(STR, e)), "literal", None)]
+        if re.match(r"^\w+$", e):
+            f = self.func_at(pos)
+            if f and e in f[1]: return [("param", e, None)]
+            la = self.local_assignments(e, pos)
+            if e in self.strs and not la: return [self.strs[e]]
+            if la:
+                out = []
+                for a in la: out += self.str_candidates(a, pos)
+                return out
+        return [None]
+    def int_value(self, e, pos, strv=None, seen=()):
+        """integer value of a length expression (strv: the string it is paired with, for sizeof/strlen of the same object)"""
+        e = self.strip(e)
+        def sz(m):
+            x = self.strip(m.group(1))
+            c = self.str_candidates(x, pos)
+            if len(c) != 1 or c[0] is None or c[0][0] == "param": raise ValueError("sizeof(%s)" % x)
+            b, kind, decl = c[0]
+            if kind == "ptr": return "8"
+            return str(decl if decl is not None else len(b) + 1)
+        def sl(m):
+            c = self.str_candidates(m.group(1), pos)
+            if len(c) != 1 or c[0] is None or c[0][0] == "param": raise ValueError("strlen(%s)" % m.group(1))
+            return str(len(c[0][0].split(b"\0")[0]))
+        e2 = re.sub(r'\bsizeof\s*\(((?:[^()]|\([^()]*\))*)\)', sz, e)
+        e2 = re.sub(r'\b(?:[Ss]trlen|psStrlen|Strnlen)\s*\(\s*((?:[^(),]|\([^()]*\))*)(?:,[^()]*)?\)', sl, e2)
+        e2 = re.sub(r'\(\s*(?:psSize_t|psSizeL_t|size_t|int|uint\d+_t|int\d+_t|unsigned)\s*\)', '', e2)
+        def ident(m):
+            n = m.group(0)
+            if n in seen: raise ValueError("cyclic " + n)
+            la = self.local_assignments(n, pos)
+            src = la[0] if len(la) == 1 else self.ints.get(n) if not la else None
+            if src is None: raise ValueError("unresolved " + n)
+            return "(%d)" % self.int_value(src, pos, strv, seen + (n,))
+        e3 = re.sub(r'\b[A-Za-z_]\w*\b', ident, e2)
+        e3 = re.sub(r'\b(\d+)[uUlL]+\b', r'\1', e3)
+        if not re.match(r'^[\d\s+\-*()]+$', e3): raise ValueError("not constant: " + e)
+        return int(eval(e3))
+
+def effective(b, n):
+    """the n bytes read from a NUL-terminated string literal b"""
+    if n <= len(b): return b[:n]
+    if n == len(b) + 1: return b + b"\0"
+    return None
+
+def resolve(u, site_of, lab_e, len_e, pos, where):
+    """resolve one call site; site_of(i, n_candidates, cond) -> site id"""
+    labs = u.str_candidates(lab_e, pos)
+    if any(c is not None and c[0] == "param" for c in labs): return      # the label is passed through from the caller
+    t = u.split_ternary(u.strip(len_e))
+    len_es = [t[1], t[2]] if t and len(labs) == 2 else None
+    if len_es is None:
+        la = u.local_assignments(u.strip(len_e), pos) if re.match(r"^\w+$", u.strip(len_e)) else []
+        len_es = la if len(la) == len(labs) and len(la) > 1 else [len_e] * len(labs)
+    tl = u.split_ternary(u.strip(lab_e))
+    for i, (c, le) in enumerate(zip(labs, len_es)):
+        site = site_of(i, len(labs), tl[0] if tl else "")
+        if site is None: continue
+        if c is None:
+            found[site].append((None, "%s: label expression `%s` not resolved" % (where, lab_e))); continue
+        try: n = u.int_value(le, pos, c)
+        except Exception as ex:
+            found[site].append((None, "%s: length expression `%s` not resolved (%s)" % (where, le, ex))); continue
+        eff = effective(c[0], n)
+        if eff is None: found[site].append((None, "%s: length %d reads past the terminator of \"%s\"" % (where, n, c[0].decode("latin1"))))
+        else: found[site].append((eff, "%s: %s, %s" % (where, lab_e if len(labs) == 1 else "%s [%d]" % (lab_e, i), le)))
+
+def line_of(u, pos): return u.txt.count("\n", 0, pos) + 1
+
+# ---------------------------------------------------------------- TLS 1.0-1.2: Memcpy(seed, LABEL, SIZE) in tls.c / hsHash.c
+u = Unit("matrixssl/tls.c")
+F12 = {"genKeyBlock": "key_block", "tlsDeriveKeys": "master", "tlsExtendedDeriveKeys": "ext_master"}
+for pos, a in u.calls("Memcpy") + u.calls("memcpy"):
+    f = u.func_at(pos)
+    if not f or f[0] not in F12 or len(a) != 3: continue
+    if not re.match(r"^\w+$", a[0]) or "Random" in a[1] or a[1].strip() == "hash": continue           # only the copy to the start of the seed buffer
+    resolve(u, lambda i, n, c, s=F12[f[0]]: s, a[1], a[2], pos, "tls.c:%d %s" % (line_of(u, pos), f[0]))
+u = Unit("matrixssl/hsHash.c")
+for pos, a in u.calls("Memcpy") + u.calls("memcpy"):
+    f = u.func_at(pos)
+    if not f or f[0] != "tlsGenerateFinishedHash" or len(a) != 3 or not re.match(r"^\w+$", a[0]): continue
+    # (senderFlag & SSL_FLAGS_SERVER) ? <server> : <client>
+    resolve(u, lambda i, n, c: (["server_finished", "client_finished"][i] if n == 2 and "SERVER" in c else None), a[1], a[2], pos,
+            "hsHash.c:%d tlsGenerateFinishedHash" % line_of(u, pos))
+
+# ---------------------------------------------------------------- TLS 1.3: by destination
+def site13(out, fname):
+    o = out.replace(" ", "")
+    for pat, s in (("tls13HsTrafficSecretClient", "c_hs_traffic"), ("tls13HsTrafficSecretServer", "s_hs_traffic"), ("tls13AppTrafficSecretClient", "c_ap_traffic"),
+                   ("tls13AppTrafficSecretServer", "s_ap_traffic"), ("tls13ResumptionMasterSecret", "res_master"), ("tls13EarlyTrafficSecretClient", "c_e_traffic"),
+                   ("tls13ExtBinderSecret", "binder"), ("derivedSecret", "derived")):
+        if o.endswith(pat): return s
+    if re.search(r"Key(Out)?$", o) and ("Finished" in o or "inder" in o): return "finished"
+    if re.search(r"(Read|Write|Data)Key$", o): return "key"
+    if re.search(r"(Read|Write|Data)Iv$", o): return "iv"
+    if fname == "tls13DeriveResumptionPsk": return "resumption"
+    return None
+for fn in ("matrixssl/tls13KeySchedule.c", "matrixssl/tls13Resume.c"):
+    u = Unit(fn); base = os.path.basename(fn)
+    for callee, li, oi in (("tls13DeriveSecret", 4, 8), ("psHkdfExpandLabel", 4, 9)):
+        for pos, a in u.calls(callee):
+            if len(a) <= oi: continue
+            f = u.func_at(pos); s = site13(a[oi], f[0] if f else "")
+            where = "%s:%d %s -> %s" % (base, line_of(u, pos), f[0] if f else "?", a[oi])
+            if s == "binder":        # if (psk->isResumptionPsk) label = <res> else label = <ext>
+                resolve(u, lambda i, n, c: (["res_binder", "ext_binder"][i] if n == 2 else None), a[li], a[li + 1], pos, where)
+            elif s: resolve(u, lambda i, n, c, s=s: s if n == 1 else None, a[li], a[li + 1], pos, where)
+            elif not (f and a[li] in f[1]): notes.append("unclassified site " + where)
+# CertificateVerify context strings: the signer uses its own role, the verifier the peer's
+for fn, first in (("matrixssl/tls13Encode.c", ["cv_server", "cv_client"]), ("matrixssl/tls13Decode.c", ["cv_client", "cv_server"])):
+    u = Unit(fn); base = os.path.basename(fn)
+    for callee, li in (("tls13Sign", 5), ("tls13Verify", 7)):
+        for pos, a in u.calls(callee):
+            if len(a) <= li + 1: continue
+            resolve(u, lambda i, n, c, first=first: (first[i] if n == 2 and "IS_SERVER" in c else None), a[li], a[li + 1], pos,
+                    "%s:%d %s" % (base, line_of(u, pos), callee))
+
+# ---------------------------------------------------------------- output
+def blist(b): return "[" + "; ".join(str(x) for x in b) + "]%N"
+out = ["(* GENERATED by tools/srcgen/gen_tls_labels.py: (bytes, length) the TLS key derivation code passes at each derivation site - do not edit *)",
+       "From Coq Require Import NArith List.", "Import ListNotations.",
+       "(* every definition lists the DISTINCT byte strings passed at the sites of that role: a well-formed tree has exactly one *)"]
+table = {}
+for s in SITES:
+    vals = []; prov = []
+    for b, w in found[s]:
+        prov.append(w)
+        if b is not None and b not in vals: vals.append(b)
+    unresolved = [w for b, w in found[s] if b is None]
+    if (unresolved or not found[s]) and s in CAPTURE:
+        for hx in CAPTURE[s]:
+            b = bytes.fromhex(hx)
+            if b not in vals: vals.append(b)
+        prov.append("completed from the run-time capture (%s)" % (unresolved[0] if unresolved else "no site found statically"))
+    elif unresolved or not found[s]:
+        prov.append("NOT RESOLVED and not exercised by the run-time capture")
+    table[s] = [v.hex() for v in vals]
+    out.append("Definition lbl_%s : list (list N) := [%s].   (* %s *)" % (s, "; ".join(blist(v) for v in vals),
+               " | ".join(repr(v.decode("latin1"))[1:-1] for v in vals).replace("*)", "* )")))
+    for w in prov: out.append("  (* %s *)" % w.replace("*)", "* )").replace("(*", "( *"))
+txt = read("crypto/digest/hkdf.c")
 m = re.search(r'psDynBufAppendStr\(&labelBuf,\s*"([^"]*)"\)', txt)
-out.append("Definition s_hkdf_prefix : list N := %s.   (* \"%s\" *)" % (blist(m.group(1)), m.group(1)) if m else "(* hkdf prefix not found *)")
+out.append("Definition s_hkdf_prefix : list N := %s.   (* \"%s\" *)" % (blist(m.group(1).encode()), m.group(1)) if m else "Definition s_hkdf_prefix : list N := [].   (* not found *)")
+table["hkdf_prefix"] = [m.group(1).encode().hex()] if m else []
 # the hard-coded digests of the empty string used by tls13DeriveSecret for an empty context
-txt = open(os.path.join(REPO, "matrixssl/tls13KeySchedule.c"), errors="replace").read()
+txt = read("matrixssl/tls13KeySchedule.c")
 for nm in ("sha256OfEmptyInput", "sha384OfEmptyInput"):
-    m = re.search(r"%s\[\]\s*=\s*\{([^}]*)\}" % nm, txt)
-    if m: out.append("Definition s_%s : list N := [%s]%%N." % (nm, "; ".join(str(int(x, 16)) for x in re.findall(r"0x[0-9a-fA-F]+", m.group(1)))))
-    else: out.append("(* %s not found *)" % nm)
+    m = re.search(r"%s\s*\[\s*\d*\s*\]\s*=\s*\{([^}]*)\}" % nm, txt)
+    out.append("Definition s_%s : list N := [%s]%%N." % (nm, "; ".join(str(int(x, 16)) for x in re.findall(r"0x[0-9a-fA-F]+", m.group(1))) if m else ""))
+for n in notes: out.append("(* %s *)" % n.replace("*)", "* )"))
 s = "\n".join(out) + "\n"
 p = os.path.join(VERIF, "coq/Gen/TlsLabels.v")
+json.dump(table, open(os.path.join(VERIF, "coq/Gen/TlsLabels.json"), "w"), indent=1, sort_keys=True)
 if not os.path.exists(p) or open(p).read() != s:
     open(p, "w").write(s); print("TlsLabels.v updated")
 else:
